@@ -443,3 +443,58 @@ Proof.
   intros H Hty Hlt. destruct (fig_occ_single_le _ _ _ _ _ _ _ _ _ _ H Hty) as [Hle Hpos].
   split; [exact Hle|]. apply (ratio_le_one _ _ _ BAlg_laws); [split; assumption | exact Hle].
 Qed.
+
+(** the same, spelled out for a constraint line that is not an OR and not the
+    merged kind: its count is ONE declarative count, for the line's own
+    direction, property and type key and for the ORIGINAL cardinality key
+    [ck] (the printed cardinality is [ck]'s, or [+] for [{k>1}] under
+    [disable_exact], or [?]/[*] when the line was relaxed) *)
+Theorem e2e_line_exact fa c thr g ns shapes :
+  run_shapes fa c thr g = inl (ns, shapes) ->
+  exists I, track (r_tau c) (mode_of c) (r_cap c) g = inl I /\
+    forall sh st, In sh shapes -> In st (sh_stmts sh) ->
+      s_choice st = false -> s_type st <> c_NONLITERAL_ELEM_TYPE ->
+      exists ck,
+        s_nocc st = occ (dir_of (s_inv st)) (r_tau c) I g (sh_class sh) (s_prop st) (s_type st) ck /\
+        0 < s_nocc st /\ s_nocc st <= sh_n sh /\ sh_n sh = class_count I (sh_class sh) /\
+        ((s_prob st = PRatio (s_nocc st) /\ card_tuned (scfg_of c ns) (card_of_key ck) (s_card st)) \/
+         (r_all_compliant c = true /\ s_prob st = POne /\
+          s_card st = relax_card (scfg_of c ns) (card_of_key ck))).
+Proof.
+  intros H. destruct (e2e_figures fa c thr g ns shapes H) as (I & HT & HS). exists I. split; [exact HT|].
+  intros sh st Hsh Hst Hch Hty. destruct (HS sh Hsh) as (_ & _ & En & Hall).
+  destruct (Hall st Hst) as [_ (ty & pr0 & c0 & H1 & H2 & H3 & _ & H5)].
+  assert (Ety : s_type st = ty) by (unfold s_type; rewrite (H2 Hch); reflexivity).
+  rewrite Ety in *. destruct (fig_occ_single _ _ _ _ _ _ _ _ _ _ H3 Hty) as (ck & -> & En' & -> & Hp).
+  destruct (fig_occ_single_le _ _ _ _ _ _ _ _ _ _ H3 Hty) as [Hle _].
+  exists ck. split; [exact En'|]. split; [exact Hp|]. split; [rewrite En; exact Hle|]. split; [exact En|].
+  destruct H5 as [[A B]|(A & B & D & _)]; [left; auto | right; auto].
+Qed.
+
+(** and for the comments: a [KStmt] comment carries a figure of the same
+    class, direction and property; for a type key other than the merged kind
+    it is one declarative count, for the merged kind the sum of two *)
+Theorem e2e_comment_exact fa c thr g ns shapes :
+  run_shapes fa c thr g = inl (ns, shapes) ->
+  exists I, track (r_tau c) (mode_of c) (r_cap c) g = inl I /\
+    forall sh st ch pr n tk c0, In sh shapes -> In st (sh_stmts sh) ->
+      In (KStmt ch pr n tk c0) (s_comments st) ->
+      let o := occ (dir_of (s_inv st)) (r_tau c) I g (sh_class sh) (s_prop st) in
+      exists ty, (ch = false -> tune_token ns ty = Some tk) /\
+        ((exists ck, c0 = card_of_key ck /\ n = o ty ck /\ pr = PRatio n /\ 0 < n /\
+                     (ty <> c_NONLITERAL_ELEM_TYPE -> n <= sh_n sh)) \/
+         (ty = c_NONLITERAL_ELEM_TYPE /\
+          exists ckb cki, n = o c_BNODE_ELEM_TYPE ckb + o c_IRI_ELEM_TYPE cki /\
+                          pr = PSum (o c_BNODE_ELEM_TYPE ckb) (o c_IRI_ELEM_TYPE cki) /\
+                          c0 = most_general_card (card_of_key ckb) (card_of_key cki))).
+Proof.
+  intros H. destruct (e2e_figures fa c thr g ns shapes H) as (I & HT & HS). exists I. split; [exact HT|].
+  intros sh st ch pr n tk c0 Hsh Hst Hk o. destruct (HS sh Hsh) as (_ & _ & En & Hall).
+  destruct (Hall st Hst) as [_ (_ & _ & _ & _ & _ & _ & H4 & _)].
+  rewrite Forall_forall in H4. specialize (H4 _ Hk). cbn in H4. destruct H4 as (ty & Hf & Htk).
+  exists ty. split; [exact Htk|].
+  destruct (fig_occ_cases _ _ _ _ _ _ _ _ _ _ Hf) as [(ck & A1 & A2 & A3 & A4)|(A1 & ckb & cki & B1 & B2 & B3 & _)].
+  - left. exists ck. repeat split; auto. intros Hty.
+    rewrite En. apply (fig_occ_single_le _ _ _ _ _ _ _ _ _ _ Hf Hty).
+  - right. split; [exact A1|]. exists ckb, cki. auto.
+Qed.
